@@ -138,7 +138,10 @@ fn build_both(text: &str, hol: &HolSpec, tz: Tz) -> Option<(Oh, TzOh)> {
 }
 
 fn budgeted<T>(f: impl FnOnce() -> T) -> Result<Option<T>, String> {
-    crate::stream::with_day_budget(6_000, f)
+    hooks::arm_budget(hooks::Site::TzMinuteStep, 200_000);
+    let r = crate::stream::with_day_budget(6_000, f);
+    // (with_day_budget resets the counters, arms the day budget on top, and disarms everything)
+    r
 }
 
 /// All C09 checks at one instant (given in UTC); `other_zones`: zones in which the input is expressed.
@@ -176,7 +179,13 @@ pub fn check(naive_oh: &Oh, tz_oh: &TzOh, tz: Tz, i_utc: NaiveDateTime, other_zo
     let to = tz.from_utc_datetime(&to_utc);
     let wall_to = to.naive_local();
     let naive_ivs = guarded(|| naive_oh.iter_range(wall, wall_to).take(120).collect::<Vec<_>>()).map_err(|p| format!("naive iter_range panicked: {p}"))?;
-    let tz_ivs = guarded(|| tz_oh.iter_range(input, to).take(120).collect::<Vec<_>>()).map_err(|p| format!("iter_range({input}, {to}) panicked: {p}"))?;
+    // mapping a bound into the zone steps minute by minute over a gap: at most a bit more than the
+    // longest gap (a skipped local day) per bound - a budget (hook H1) turns a runaway into a verdict
+    hooks::reset_ticks();
+    hooks::arm_budget(hooks::Site::TzMinuteStep, 2 * 120 * 3_000);
+    let tz_ivs = guarded(|| tz_oh.iter_range(input.clone(), to.clone()).take(120).collect::<Vec<_>>());
+    hooks::disarm_budgets();
+    let tz_ivs = tz_ivs.map_err(|p| if p.starts_with("step budget exceeded") { format!("iter_range({input}, {to}): more than 720000 minute steps while mapping interval bounds into {tz}: the gap is never left") } else { format!("iter_range({input}, {to}) panicked: {p}") })?;
     if naive_ivs.len() != tz_ivs.len() {
         return Err(format!("iter_range({input}, {to}) yields {} intervals in zone context {tz}, naive evaluation of [{wall}, {wall_to}) yields {}", tz_ivs.len(), naive_ivs.len()));
     }
